@@ -1120,14 +1120,30 @@ func ruleP06Shape(p *Prog, r *Report) {
 			// hasErrors is set exactly when an error list is non-nil
 			okFlag := false
 			if ph, ok := strip(retResult(rets[0], 4)).(*ssa.Phi); ok {
-				_, ins := phiCycle(ph)
+				phis, ins := phiCycle(ph)
 				okFlag = true
 				sawTrue := false
+				// `flag = flag || errs != nil` keeps a raised flag: the constant true flows in on
+				// the edge on which the flag itself was true
+				preserved := false
+				for q := range phis {
+					for i, e := range q.Edges {
+						if b, isB := constBool(e); !isB || !b {
+							continue
+						}
+						pb := q.Block().Preds[i]
+						for _, g := range append(append([]Guard{}, guardsOf(pb)...), edgeGuard(pb, q.Block())...) {
+							if gq, isQ := strip(g.Cond).(*ssa.Phi); isQ && phis[gq] && g.Pol {
+								preserved = true
+							}
+						}
+					}
+				}
 				for _, in := range ins {
 					b, isB := constBool(in)
 					if !isB {
 						// `flag = flag || errs != nil`: the raised value is the nil test of an error list
-						if x, isNil, okN := nilFact(Guard{Cond: in, Pol: true}); okN && !isNil && isSliceOf(x.Type(), "Error") {
+						if x, isNil, okN := nilFact(Guard{Cond: in, Pol: true}); okN && !isNil && isSliceOf(x.Type(), "Error") && preserved {
 							sawTrue = true
 							continue
 						}
